@@ -403,6 +403,87 @@ fn adopt_orphans(g: &mut RefGraph, id: u64) {
     }
 }
 
+/// Reference replay: what the bytes of a WAL directory *say*, by the format's own rules,
+/// computed without any code of the tree: files in sequence order; in each file the valid
+/// `len | payload | crc` frames up to the first invalid one; records become effective when a
+/// TxCommit follows them, TxAbort and Checkpoint drop the pending ones; the effective records
+/// are applied to an empty graph. A recovery that returns this state is *faithful to the log*:
+/// whatever it lacks was never (durably, committedly) written. A recovery that returns
+/// anything else has a defect of its own.
+fn reference_replay(wal_dir: &Path) -> RefGraph {
+    use grafeo_adapters::storage::wal::WalRecord;
+    let files = World::read_dir_files(wal_dir);
+    let mut names: Vec<&String> = files.keys().filter(|n| seq_of(n).is_some()).collect();
+    names.sort_by_key(|n| seq_of(n).unwrap());
+    let mut pending: Vec<WalRecord> = Vec::new();
+    let mut committed: Vec<WalRecord> = Vec::new();
+    for n in names {
+        let bytes = &files[n].bytes;
+        let mut pos = 0usize;
+        for end in valid_record_ends(bytes, 0) {
+            let payload = &bytes[pos + 4..end - 4];
+            pos = end;
+            match bincode::serde::decode_from_slice::<WalRecord, _>(payload, bincode::config::standard()) {
+                Ok((WalRecord::TxCommit { .. }, _)) => committed.append(&mut pending),
+                Ok((WalRecord::TxAbort { .. } | WalRecord::Checkpoint { .. }, _)) => pending.clear(),
+                Ok((r, _)) => pending.push(r),
+                Err(_) => break,
+            }
+        }
+    }
+    let mut g = RefGraph::default();
+    for r in committed {
+        match r {
+            WalRecord::CreateNode { id, labels } => {
+                // a second CreateNode for a live id (only possible when records that a crash
+                // left pending are resurrected): the node record and its labels are replaced,
+                // the property columns are keyed by id and keep what they hold
+                let props = g.nodes.remove(&id.as_u64()).map(|n| n.props).unwrap_or_default();
+                g.nodes.insert(id.as_u64(), MNode { labels: labels.into_iter().collect(), props });
+                adopt_orphans(&mut g, id.as_u64());
+            }
+            WalRecord::DeleteNode { id } => {
+                g.nodes.remove(&id.as_u64());
+            }
+            WalRecord::CreateEdge { id, src, dst, edge_type } => {
+                let props = g.edges.remove(&id.as_u64()).map(|e| e.props).unwrap_or_default();
+                g.edges.insert(id.as_u64(), MEdge { src: src.as_u64(), dst: dst.as_u64(), ty: edge_type, props });
+            }
+            WalRecord::DeleteEdge { id } => {
+                g.edges.remove(&id.as_u64());
+            }
+            WalRecord::SetNodeProperty { id, key, value } => {
+                let v = SV::from_value(&value);
+                match g.nodes.get_mut(&id.as_u64()) {
+                    Some(n) => {
+                        n.props.insert(key, v);
+                    }
+                    None => {
+                        g.orphans.entry(id.as_u64()).or_default().insert(key, v);
+                    }
+                }
+            }
+            WalRecord::SetEdgeProperty { id, key, value } => {
+                if let Some(e) = g.edges.get_mut(&id.as_u64()) {
+                    e.props.insert(key, SV::from_value(&value));
+                }
+            }
+            WalRecord::AddNodeLabel { id, label } => {
+                if let Some(n) = g.nodes.get_mut(&id.as_u64()) {
+                    n.labels.insert(label);
+                }
+            }
+            WalRecord::RemoveNodeLabel { id, label } => {
+                if let Some(n) = g.nodes.get_mut(&id.as_u64()) {
+                    n.labels.remove(&label);
+                }
+            }
+            _ => {}
+        }
+    }
+    g
+}
+
 /// One incarnation's bookkeeping.
 struct Inc {
     dir: PathBuf,
@@ -471,6 +552,12 @@ struct World {
     /// so the judgement of the recovery that directly follows the fault is never relaxed.
     dirty_armed: bool,
     pending_armed: bool,
+    /// reference replay of the directory the database was last opened on, taken before
+    /// the open (`reference_replay`)
+    log_view: Option<RefGraph>,
+    /// set by `judge_recovered`: does the recovered state equal `log_view`?
+    cur_faithful: Option<bool>,
+    cur_got: Option<RefGraph>,
 }
 
 impl World {
@@ -481,22 +568,55 @@ impl World {
         *self.faults.entry(k).or_insert(0) += 1;
     }
     fn find(&mut self, sig: String, detail: String) {
-        let (sig, detail) = if self.dirty_tail && (sig.contains("| lost-tail |") || sig.contains("| not-a-prefix")) {
+        let about_loss = sig.contains("| lost-tail |") || sig.contains("| not-a-prefix");
+        // Every listed root cause of a lost tail is on the *writing* side (no commit marker
+        // yet, records appended behind invalid bytes, records that a crash left pending): the
+        // recovery itself then returns exactly what the bytes say. A recovery that returns
+        // something else than the reference replay of the same bytes is a different matter
+        // and never gets one of those signatures.
+        let faithful = self.cur_faithful.unwrap_or(false);
+        let (sig, detail) = if about_loss && !faithful {
+            let d = match (&self.cur_got, &self.log_view) {
+                (Some(g), Some(v)) => diff_summary(g, v),
+                _ => "no reference replay".to_string(),
+            };
+            (format!("{sig} | recovery-differs-from-log-content"), format!("{detail} ## recovered vs reference replay of the bytes: {d}"))
+        } else if self.dirty_tail && about_loss {
             (
-                format!("{} | after-invalid-log-tail | records-appended-behind-invalid-bytes-lost", self.prop),
+                format!("{} | after-invalid-log-tail | records-appended-behind-invalid-bytes-lost | recovery-faithful-to-log", self.prop),
                 format!("[{sig}] {detail}"),
             )
-        } else if self.pending_at_open && (sig.contains("| lost-tail |") || sig.contains("| not-a-prefix")) {
+        } else if self.pending_at_open && about_loss {
             (
-                format!("{} | after-uncommitted-records-in-log | discarded-records-resurrected-by-next-commit-marker", self.prop),
+                format!("{} | after-uncommitted-records-in-log | discarded-records-resurrected-by-next-commit-marker | recovery-faithful-to-log", self.prop),
                 format!("[{sig}] {detail}"),
             )
+        } else if about_loss {
+            (format!("{sig} | recovery-faithful-to-log"), detail)
         } else {
             (sig, detail)
         };
         if !self.findings.iter().any(|(s, _)| *s == sig) {
             self.findings.push((sig, detail));
         }
+    }
+
+    /// Byte-level form of the durability promise: when sync / wal_checkpoint / close has
+    /// returned, every byte written to a log file so far has been covered by an fsync of that
+    /// file (otherwise a crash right now may lose acknowledged work, whatever recovery does).
+    fn check_written_bytes_durable(&mut self, api: &'static str, step: usize) {
+        let evs = self.events_of_inc();
+        let fs = files_at(&self.inc.base, &evs, evs.len(), false);
+        for (name, f) in &fs {
+            if seq_of(name).is_some() && f.durable_len < f.bytes.len() {
+                let (prop, d, l) = (self.prop.clone(), f.durable_len, f.bytes.len());
+                self.find(
+                    format!("{prop} | api={api} | returned-with-log-bytes-not-fsynced"),
+                    format!("step {step}: {name}: {l} bytes written, only {d} covered by an fsync when {api} returned"),
+                );
+            }
+        }
+        self.p("written_bytes_checked_durable_after_durability_call");
     }
 
     fn wal_dir(&self) -> PathBuf {
@@ -538,6 +658,7 @@ impl World {
         }
         let ev_start = self.tap.events.borrow().len();
         self.inc = Inc { dir: dir.clone(), base, first_op: at_op, recs_after: Vec::new(), ev_start };
+        self.log_view = guarded(|| reference_replay(&dir.join("wal"))).ok();
         let cfgd = db_config(&dir, self.cfg.durability);
         match guarded(|| GrafeoDB::with_config(cfgd)) {
             Ok(Ok(db)) => {
@@ -669,6 +790,13 @@ impl World {
         clean: bool,
         crash_event_abs: usize,
     ) -> Option<usize> {
+        self.cur_faithful = self.log_view.as_ref().map(|v| got.same_graph(v));
+        self.cur_got = Some(got.clone());
+        match self.cur_faithful {
+            Some(true) => self.p("recovery_equal_to_reference_replay_of_the_bytes"),
+            Some(false) => self.p("recovery_differs_from_reference_replay_of_the_bytes"),
+            None => {}
+        }
         // snaps[i] = state after op i; state "after p ops" = snaps[p-1], p=0 → empty
         let state = |w: &World, p: usize, logged: bool| -> RefGraph {
             if p == 0 {
@@ -784,6 +912,8 @@ impl World {
         let floor = self.floor_sync(evs, k);
         let (dir, desc) = self.build_image(evs, k, &mut img);
         self.tap.recording.set(false);
+        let saved_view = self.log_view.take();
+        self.log_view = guarded(|| reference_replay(&dir.join("wal"))).ok();
         let cfgd = db_config(&dir, self.cfg.durability);
         let r = guarded(|| GrafeoDB::with_config(cfgd).map(|db| {
             let d = dump(&db, &BTreeSet::new(), &BTreeSet::new());
@@ -816,6 +946,7 @@ impl World {
             }
         }
         let _ = std::fs::remove_dir_all(&dir);
+        self.log_view = saved_view;
     }
 }
 
@@ -852,6 +983,9 @@ pub fn exec(cfg: &Config, ops: &[Op], run_tag: &str) -> ExecResult {
         pending_at_open: false,
         dirty_armed: false,
         pending_armed: false,
+        log_view: None,
+        cur_faithful: None,
+        cur_got: None,
     };
     let mut probe_rng = Prng::new(cfg.probe_seed);
     let mut steps_done = 0usize;
@@ -1139,10 +1273,12 @@ pub fn exec(cfg: &Config, ops: &[Op], run_tag: &str) -> ExecResult {
             w.p("checkpoint");
             let n = w.tap.events.borrow().len();
             w.api_marks.push((n, i + 1, "checkpoint"));
+            w.check_written_bytes_durable("wal_checkpoint", i);
         }
         if matches!(op, Op::Sync) {
             let n = w.tap.events.borrow().len();
             w.api_marks.push((n, i + 1, "sync"));
+            w.check_written_bytes_durable("sync", i);
         }
         if matches!(op, Op::Rotate) {
             w.p("rotation_explicit");
@@ -1180,6 +1316,7 @@ pub fn exec(cfg: &Config, ops: &[Op], run_tag: &str) -> ExecResult {
                 {
                     let n = w.tap.events.borrow().len();
                     w.api_marks.push((n, issued, "close"));
+                    w.check_written_bytes_durable("close", i);
                 }
                 let evs = w.events_of_inc();
                 if w.prop == "C06" && n_probe > 0 && !evs.is_empty() {
